@@ -551,7 +551,7 @@ def run_obs(drv, case) -> Outcome:
     one = case.get("one")
     st = I.QutipState(qobj_state(I, S.flatten() if is_ket else S, d, n, is_ket), eigenstates=eig)
     ham = I.QutipOperator(qobj_op(I, H, d, n), eigenstates=eig)
-    one_eff = one or st.infer_one_state()
+    one_eff = one or mc.inferred_one_state(eig)      # documented convention, not State.infer_one_state
     rho = S @ S.conj().T if is_ket else S
     purity = float(np.real(np.trace(rho @ rho)))
     kind_state = "pure" if purity > 1 - 1e-9 else "mixed"
@@ -560,6 +560,11 @@ def run_obs(drv, case) -> Outcome:
     cfg = SimpleNamespace(noise_model=SimpleNamespace(p_false_pos=float(case.get("pfp", 0.0)),
                                                       p_false_neg=float(case.get("pfn", 0.0))))
     kw = dict(config=cfg, state=st, hamiltonian=ham)
+    if one is None:
+        out.evaluations += 1
+        if st.infer_one_state() != one_eff:
+            out.fail("one-state-inference", f"eigenstates {eig}: inferred one-state {st.infer_one_state()!r}, "
+                                            f"documented {one_eff!r}")
     real = dict(
         occ=[complex(x) for x in do.Occupation(one_state=one).apply(**kw)],
         corr=[[complex(x) for x in row] for row in do.CorrelationMatrix(one_state=one).apply(**kw)],
@@ -728,7 +733,7 @@ def run_bitprobs(drv, case) -> Outcome:
     st = I.QutipState(qobj_state(I, S.flatten() if is_ket else S, d, n, is_ket), eigenstates=eig)
     one = case.get("one")
     cutoff = float(Fraction(case["cutoff"]))
-    one_eff = one or st.infer_one_state()
+    one_eff = one or mc.inferred_one_state(eig)      # documented convention, not State.infer_one_state
     out = Outcome(branch=f"d{d}n{n}" + ("-digit-eigenstates" if set(eig) & {"0", "1"} else ""))
     real = {k: float(v) for k, v in st.bitstring_probabilities(one_state=one, cutoff=cutoff).items()}
     probs = (np.abs(S.flatten()) ** 2) if is_ket else np.abs(np.diag(S)).real
@@ -874,13 +879,26 @@ def run_backend(drv, case) -> Outcome:
             else:
                 out.fail("backend-runs", f"V2 backend raises on a valid sequence/config: {msg}", levels="?", noise="?")
             return out
-        T = res.total_duration
+        # duration: scheduler output (owned by C02/C03) - the Results object must carry exactly it
+        T = seq.get_duration()
+        n_atoms = int(spec["n"])
+        out.evaluations += 1
+        if res.total_duration != T or tuple(res.atom_order) != tuple(f"q{i}" for i in range(n_atoms)):
+            out.fail("results-header", f"Results(total_duration={res.total_duration}, atom_order={res.atom_order}) for a "
+                                       f"{T} ns sequence on atoms q0..q{n_atoms - 1}")
         tol = 0.5 / T
         sim = backend._sim_obj
-        eig = tuple(sim.samples_obj.eigenbasis) if eig_guess is None else eig_guess
-        solver_times = [float(t) / T * 1e3 for t in sim._eval_times_array]
+        # eigenbasis from the channels used (documented ranking), not from the emulator's own attribute
+        eig = mc.eigenbasis_of_channels(seg["ch"] for seg in spec["segments"])
+        # "Full": every nanosecond 0..T (relative k/T) plus whatever any observable asked for
+        solver_times = sorted({k / T for k in range(T + 1)} | {float(x) for x in all_times})
         state_ts = res.get_result_times(state_obs)
         out.detail = dict(T=T, eigenstates=eig, solver_times=solver_times[:12], stored={})
+        stored_state = res.state[-1]
+        out.evaluations += 1
+        if tuple(stored_state.eigenstates) != tuple(eig):
+            out.fail("state-eigenbasis", f"stored states are labelled {stored_state.eigenstates}, the channels used "
+                                         f"give the eigenbasis {eig}")
         for o_spec, o in zip(case["obs"], obs_objs):
             stored_ts = [float(x) for x in res.get_result_times(o)] if o.uuid in res._results else []
             out.detail["stored"][o.tag] = stored_ts
